@@ -151,9 +151,9 @@ type EffectHit struct {
 }
 
 type EffectOpts struct {
-	Kinds      map[string]bool                 // nil = store, event, log
-	SkipEdge   func(*callgraph.Edge) bool      // extra edges not to follow
-	StopAt     func(*ssa.Function) bool        // functions not to enter (treated as effect-free by another obligation)
+	Kinds      map[string]bool            // nil = store, event, log
+	SkipEdge   func(*callgraph.Edge) bool // extra edges not to follow
+	StopAt     func(*ssa.Function) bool   // functions not to enter (treated as effect-free by another obligation)
 	MaxHits    int
 	NoIsolated bool // if true, do not apply the CacheContext isolation exemption
 }
